@@ -115,6 +115,35 @@ Section Multi.
     - exfalso. eapply read_until_semicolon_no_fuel; eassumption.
   Qed.
 
+  (** * reading "the first tree" (ReadTreeReader, after the fix 6227553) = the first record of ReadMultiTrees, for EVERY
+      input whose first ';'-terminated text is complete, whatever its layout (one line, several lines, CRLF, lines longer
+      than the buffer): the same tree, or the same parser error *)
+  Definition rec0 (r : utree + string) : item :=
+    match r with inl t => ITree 0 t | inr m => IErr 0 m end.
+
+  Theorem first_tree_is_head : forall reads line rest,
+      read_until_semicolon reads = RLine line rest ->
+      first_tree_newick nparse reads = nparse line /\
+      head_multi (read_multi nparse reads) = Some (rec0 (nparse line)).
+  Proof.
+    intros reads line rest E. split.
+    - unfold first_tree_newick. rewrite E. reflexivity.
+    - destruct (read_multi_total reads) as [l Hl]. revert Hl. unfold read_multi. rewrite E.
+      cbn [multi_loop]. destruct (nparse line) as [t|m]; [|intros _; reflexivity].
+      match goal with |- (mcons _ ?x = _) -> _ => destruct x as [l'|l'|] end; cbn [mcons]; intros H;
+        [reflexivity|discriminate|discriminate].
+  Qed.
+
+  (** when the input ends before any ';' both report an error (the multi reader "EOF", the single reader "EOF" on an empty
+      text and the parser's verdict otherwise) *)
+  Theorem first_tree_eof : forall reads line,
+      read_until_semicolon reads = REof line ->
+      head_multi (read_multi nparse reads) = Some (IErr 0 "EOF") /\
+      first_tree_newick nparse reads = (if String.eqb line "" then inr "EOF" else nparse line).
+  Proof.
+    intros reads line E. unfold read_multi, first_tree_newick. rewrite E. split; reflexivity.
+  Qed.
+
   (** ids are consecutive from the start value, an error record is the last one *)
   Fixpoint ids_from (k : nat) (l : list item) : Prop :=
     match l with
